@@ -204,8 +204,8 @@ Definition spec_c08 (c : bcase) : bool :=
       | Some (_, _, _, _, leaf) =>
           N.eqb (calculate_root leaf (po_sibs p) (po_idx p)) (po_root p) && Nat.eqb (length (po_sibs p)) 32 &&
           opt_eqb N.eqb (po_calc p) (Some (po_root p))
-      | None => false end) (sn_proofs s)) (c_snaps c)
-  && negb (Nat.eqb (length (flat_map sn_proofs (c_snaps c))) 0).
+      | None => false end) (sn_proofs s)) (c_snaps c).
+(* (a history whose deposits were all reorged away serves no proof: nothing to judge; counted as trivial in evidence) *)
 
 Fixpoint bad_indices {A} (f : A -> bool) (i : nat) (l : list A) : list nat :=
   match l with [] => [] | x :: t => if f x then bad_indices f (S i) t else i :: bad_indices f (S i) t end.
